@@ -16,12 +16,13 @@ for d in sorted(glob.glob('/verif/seeded/C*/')):
         st += ' — ' + cr['note']
     rows.append((name, cut(esc(m.get('summary', '')), 420), cut(esc(m.get('needs', '')), 320), esc(st), '`' + cut(esc(cr.get('signatures', '')), 260) + '`'))
 det = sum(1 for r in rows if r[3].startswith('detected') and not r[3].startswith('detected after'))
+out_of = sum(1 for r in rows if r[3].startswith('not detected'))
 aft = sum(1 for r in rows if r[3].startswith('detected after'))
 out = ['# Independently seeded property-breaking changes', '',
- 'Each directory holds a change written by a fresh sub-agent that was given only the text of one property (from round 2 on also a one-paragraph description of the earlier seeds for that property, so that it picks a different mechanism) and a scratch worktree of `/repo` — nothing from /verif: `patch.diff`, the agent\'s demonstration (`demo/`, fails with the patch, passes without) and `meta.json` (what it breaks, what it needs to manifest, what was run, and `check_result`). Every change was re-verified by `tools/seedcheck.sh` in a fresh worktree (applies, builds, existing tests of the touched packages pass, demo passes/fails as claimed) and the corresponding check was then run against the patched tree through `VERIF_OVERLAY` (never touching `/repo`). `<ID>` = round 1, `<ID>-r2` = round 2, `<ID>-r3` = round 3.', '',
+ 'Each directory holds a change written by a fresh sub-agent that was given only the text of one property (from round 2 on also a one-paragraph description of the earlier seeds for that property, so that it picks a different mechanism) and a scratch worktree of `/repo` — nothing from /verif: `patch.diff`, the agent\'s demonstration (`demo/`, fails with the patch, passes without) and `meta.json` (what it breaks, what it needs to manifest, what was run, and `check_result`). Every change was re-verified by `tools/seedcheck.sh` in a fresh worktree (applies, builds, existing tests of the touched packages pass, demo passes/fails as claimed) and the corresponding check was then run against the patched tree through `VERIF_OVERLAY` (never touching `/repo`). `<ID>` = round 1, `<ID>-r2` = round 2, `<ID>-r3` = round 3, `<ID>-r4` = round 4.', '',
  '| id | change | needs | check result | signatures |', '|---|---|---|---|---|']
 for r in rows:
     out.append('| ' + ' | '.join(r) + ' |')
-out += ['', f'{len(rows)} seeded changes: {det} were detected by the check as it stood when the seed was written, {aft} were missed at first and are detected after the strengthening noted in the row (every strengthening is a generalisation of the explored space — a new dimension, family or oracle — not a special case for the seed). None of these patches is applied to `/repo`.', '']
+out += ['', f'{len(rows)} seeded changes: {det} were detected by the check as it stood when the seed was written, {aft} were missed at first and are detected after the strengthening noted in the row, {out_of} is not detected because its trigger lies outside the property's premise (see its row) (every strengthening is a generalisation of the explored space — a new dimension, family or oracle — not a special case for the seed). None of these patches is applied to `/repo`.', '']
 open('/verif/seeded/README.md', 'w').write('\n'.join(out))
 print(len(rows), det, aft)
